@@ -251,7 +251,7 @@ static int        _attempt_range_join(hostlist_t, int);
 static int        _is_bracket_needed(hostlist_t, int);
 
 static hostlist_iterator_t hostlist_iterator_new(void);
-static void               _iterator_advance(hostlist_iterator_t);
+static int                _iterator_advance(hostlist_iterator_t);
 static void               _iterator_advance_range(hostlist_iterator_t);
 
 static int hostset_find_host(hostset_t, const char *);
@@ -1712,6 +1712,9 @@ char *hostlist_pop(hostlist_t hl)
         hl->nhosts--;
         if (hostrange_empty(hr))      /* re-bases the iterators as well */
             hostlist_delete_range(hl, hl->nranges - 1);
+        else                          /* iterators on the host just popped */
+            hostlist_shift_iterators(hl, hl->nranges - 1,
+                                     hr->hi - hr->lo + 1, 0);
     }
     UNLOCK_HOSTLIST(hl);
     return host;
@@ -2314,20 +2317,24 @@ void hostlist_iterator_destroy(hostlist_iterator_t i)
     free(i);
 }
 
-static void _iterator_advance(hostlist_iterator_t i)
+/* returns 0 when there is no next host (the iterator then stays on the
+ * last host it returned, so that hosts pushed later come next) */
+static int _iterator_advance(hostlist_iterator_t i)
 {
     assert(i != NULL);
     assert(i->magic == HOSTLIST_MAGIC);
     if (i->idx > i->hl->nranges - 1)
-        return;
+        return 0;
+    i->hr = i->hl->hr[i->idx];      /* the list may have grown */
     if (++(i->depth) > (i->hr->hi - i->hr->lo)) {
-        i->depth = 0;
-        if (++i->idx >= i->hl->size) {
-            i->hr = NULL;
-            return;
+        if (i->idx == i->hl->nranges - 1) {
+            i->depth--;
+            return 0;
         }
-        i->hr = i->hl->hr[i->idx];
+        i->depth = 0;
+        i->hr = i->hl->hr[++i->idx];
     }
+    return 1;
 }
 
 /* advance iterator to end of current range (meaning within "[" "]")
@@ -2359,9 +2366,7 @@ char *hostlist_next(hostlist_iterator_t i)
     assert(i != NULL);
     assert(i->magic == HOSTLIST_MAGIC);
     LOCK_HOSTLIST(i->hl);
-    _iterator_advance(i);
-
-    if (i->idx > i->hl->nranges - 1) {
+    if (!_iterator_advance(i)) {
         UNLOCK_HOSTLIST(i->hl);
         return NULL;
     }
